@@ -1,7 +1,99 @@
 """C08 — each NETCONF call gets the reply to its own request. NcSession.tla (ids, store, late replies, echo; all interleavings of delivery, fetch and expiry) and its terminal
 states as scenarios (every reply-policy vector x echo), replayed on netconf.Driver for both versions."""
 import json
+import random
 from vlib import ToolError
+
+RL_CFG = """SPECIFICATION %s
+CONSTANTS Loop = "%s"
+ DataLines = FALSE
+ Echo = %s
+ N = %d
+ PromptEcho = %s
+ Policies = {"now", "late", "never"}
+INVARIANTS TypeOK OwnReply NoLoss
+%s
+CHECK_DEADLOCK FALSE
+"""
+
+
+def rl_cfg(spec, loop, echo, n, prompt, extra):
+    return RL_CFG % (spec, loop, "TRUE" if echo else "FALSE", n, "TRUE" if prompt else "FALSE", extra)
+
+
+def readloop(ctx, thorough):
+    """NcReadLoop.tla: the read loop at the granularity of transport reads. (1) TLC: the current loop ("v2") keeps OwnReply /
+    NoLoss / Done for every cut of the stream into reads, with and without echo, also when echoes are delayed past the
+    timeout; the two older loop versions must be rejected (the model can tell them apart). (2) its behaviours replayed
+    on the real loop through a scripted transport (vh c08rl)."""
+    n = 4 if thorough else 3
+    for echo in (True, False):
+        r = ctx.tlc("MCNcReadLoop", cfg="rl.cfg", files={"rl.cfg": rl_cfg("Spec", "v2", echo, n, False, "PROPERTY Done")}, workers=8, timeout=1200)
+        ctx.notes.setdefault("readloop_model", []).append({"loop": "v2", "echo": echo, "n": n, "distinct": r["distinct"]})
+        if r["violated"] or not r["ok"]:
+            ctx.violation("C08:model:NcReadLoop-invariant", "NcReadLoop.tla (Loop = v2, the current code) violates its properties:\n" + r["stdout"][-2500:], {"kind": "model"})
+            return
+    for loop, prompt, what in (("v1", False, "one echo dropped per iteration"), ("v0", True, "remainder examined one iteration late")):
+        r = ctx.tlc("MCNcReadLoop", cfg="rl.cfg", files={"rl.cfg": rl_cfg("Spec", loop, True, 3, prompt, "")}, workers=8, timeout=600)
+        if not r["violated"]:
+            raise ToolError("NcReadLoop.tla no longer rejects the older loop version %s (%s): the model lost its teeth" % (loop, what))
+    scns = []
+    for echo in (True, False):
+        r = ctx.tlc("NcReadLoopScn", cfg="rls.cfg", files={"rls.cfg": rl_cfg("HSpec", "v2", echo, 2, False, "CONSTRAINT Emit")}, workers=8, timeout=1500)
+        if r["violated"] or not r["ok"]:
+            raise ToolError("NcReadLoopScn failed:\n" + r["stdout"][-1500:])
+        scns += r["scn"]
+    ctx.notes["readloop_behaviours"] = len(scns)
+    k1 = [s for s in scns if "v1" in s["kills"]]
+    k0 = [s for s in scns if "v0" in s["kills"] and "v1" not in s["kills"]]
+    rest = [s for s in scns if not s["kills"]]
+    if not k1 or not k0:
+        raise ToolError("no behaviour distinguishes the older loop versions (%d / %d)" % (len(k1), len(k0)))
+    rng = random.Random(ctx.seed)
+    pick = list(k1)
+    pick += k0 if thorough else rng.sample(k0, min(len(k0), 150))
+    pick += rng.sample(rest, min(len(rest), 4000 if thorough else 200))
+    out = []
+    for i, s in enumerate(pick):
+        d = dict(s)
+        d["version"] = ("1.0", "1.1")[i % 2]
+        d["burst"] = bool(s["kills"]) or (i % 4 < 2)
+        out.append(d)
+        if thorough and s["kills"]:
+            d2 = dict(d)
+            d2["version"] = ("1.1", "1.0")[i % 2]
+            out.append(d2)
+    ctx.notes["readloop_replayed"] = {"kills_v1": len(k1), "kills_v0": len(k0) if thorough else min(len(k0), 150), "total": len(out)}
+    res = ctx.run_harness("isolated", out, args=["c08rl"], timeout=3000, env={"VERIF_WORKERS": "12"})
+    if len(res) != len(out):
+        raise ToolError("isolated c08rl answered %d of %d:\n%s" % (len(res), len(out), ctx.last_stderr[-2000:]))
+    tries = {}
+    for rr in res:
+        ctx.count()
+        sc = out[rr["id"]]
+        ctx.nontriv("rl/%s" % rr["id"])
+        if rr.get("toolerror") or rr.get("sig") == "TOOL" or rr.get("died"):
+            again = ctx.run_harness("isolated", [sc], args=["c08rl"], env={"VERIF_WORKERS": "1"})
+            if again and again[0].get("ok"):
+                continue
+            if again and again[0].get("died"):
+                ctx.violation("C08:readloop:process-died", "the process died replaying a read-loop behaviour:\n" + again[0].get("stderr", "")[-1500:], sc)
+                continue
+            raise ToolError("c08rl: %s" % json.dumps(again[0] if again else rr)[:600])
+        if not rr["ok"]:
+            kind = rr["sig"]
+            st = tries.setdefault(kind, {"ok": 0, "tries": 0})
+            if st["ok"]:
+                ctx.violation(rr["sig"], rr["detail"], sc)
+            elif st["tries"] < 4:
+                st["tries"] += 1
+                again = ctx.run_harness("isolated", [sc], args=["c08rl"], env={"VERIF_WORKERS": "1"})     # V2
+                if again and not again[0].get("ok") and again[0].get("sig") not in (None, "TOOL"):
+                    st["ok"] += 1
+                    ctx.violation(again[0]["sig"], again[0]["detail"], sc)
+                else:
+                    ctx.notes.setdefault("unreproduced_candidates", []).append({"scenario": sc, "first": rr["detail"][:300]})
+    ctx.traces_validated += len(res)
 
 CFG = """SPECIFICATION Spec
 CONSTANT N = %d
@@ -14,12 +106,27 @@ CHECK_DEADLOCK FALSE
 
 def run(ctx):
     thorough = ctx.tier == "thorough"
-    ctx.rule = ("exhaustive: every vector of policies {now, late, never, write-error-after-the-request-went-out} for N = 3 (quick) / 4 (thorough) requests x echoing / non-echoing transport, each for NETCONF 1.0 and 1.1 under "
+    ctx.rule = ("exhaustive: every vector of policies {now, late, late-with-the-echo-delayed-too, never, write-error-after-the-request-went-out} for N = 3 (quick) / 4 (thorough) requests x echoing / non-echoing transport, each for NETCONF 1.0 and 1.1 under "
                 "1 / 3 read segmentations; non-trivial = at least one request is answered late or never; distinct by scenario x version x segmentation")
     ctx.assumptions += ["a late reply is released when the server sees the next request (or at the end), in reads of its own; calls answered late or never use a 250 ms per-operation timeout, the others 4 s",
-                        "one read never carries bytes of two server messages (the echo of the client's own request is not a server message)"]
+                        "one read never carries bytes of two server messages (the echo of the client's own request is not a server message)",
+                        "read-loop behaviours (NcReadLoop.tla, N = 2): every behaviour on which one of the two older loop versions loses a reply is replayed (quick: all v1-killers + 150 v0-killers), the rest by seeded sampling; "
+                        "consecutive reads of a behaviour are handed to the library together (burst) or one per settled loop iteration"]
     if ctx.replay:
         rp = json.load(open(ctx.replay))["scenario"]
+        if rp.get("kind") == "model":
+            readloop(ctx, False)
+            return
+        if "h" in rp:
+            for r in ctx.run_harness("isolated", [rp], args=["c08rl"], env={"VERIF_WORKERS": "1"}):
+                ctx.count()
+                if r.get("died"):
+                    ctx.violation("C08:readloop:process-died", r.get("stderr", "")[-1500:], rp)
+                elif r.get("sig") == "TOOL":
+                    raise ToolError(r["detail"])
+                elif not r["ok"]:
+                    ctx.violation(r["sig"], r["detail"], rp)
+            return
         for r in ctx.run_harness("c08", [rp]):
             ctx.count()
             if not r["ok"]:
@@ -35,8 +142,8 @@ def run(ctx):
         if key not in seen:
             seen.add(key)
             scns.append(s)
-    if len(scns) != 2 * 4 ** n:
-        raise ToolError("NcSession produced %d distinct scenarios, expected %d" % (len(scns), 2 * 4 ** n))
+    if len(scns) != 5 ** n + 4 ** n:
+        raise ToolError("NcSession produced %d distinct scenarios, expected %d" % (len(scns), 5 ** n + 4 ** n))
     res = ctx.run_harness("c08", scns, timeout=3000)
     per = 6 if thorough else 2
     if len(res) != len(scns) * per:
@@ -64,3 +171,4 @@ def run(ctx):
     ctx.exhaustive = True
     ctx.traces_validated = len(res)
     ctx.sample({"scenario": scns[50]})
+    readloop(ctx, thorough)
